@@ -201,7 +201,34 @@ def half_open_script(interval, intervals, per_interval, answered_first):
     return acts
 
 
-def real_walk(tid, interval, rng, horizon, max_conns, nsteps=40, script=None):
+def generations_policy(interval, silent_first, per_conn=3):
+    """A long history on one Leader Manager: connection after connection (the first `silent_first` of them with a peer that
+    never answers, every later one with a peer that answers every transmitted ping at once), each lasting `per_conn` ping
+    intervals before the network takes it away.  Returns a chooser among the actions the real objects offer."""
+    born = {}
+
+    def choose(run, acts):
+        names = [a[0] for a in acts]
+        now = int(reactor.seconds())
+        if run.live:
+            born.setdefault(run.conn_no, now)
+            if "Pong" in names and run.conn_no > silent_first:
+                return acts[names.index("Pong")]
+            if "TimerFires" in names:
+                return acts[names.index("TimerFires")]
+            if now - born[run.conn_no] >= per_conn * interval and "ConnLost" in names:
+                return acts[names.index("ConnLost")]
+        elif "TimerFires" in names:
+            return acts[names.index("TimerFires")]
+        elif "ConnMade" in names:
+            return acts[names.index("ConnMade")]
+        if "Tick" in names:
+            return acts[names.index("Tick")]
+        return None
+    return choose
+
+
+def real_walk(tid, interval, rng, horizon, max_conns, nsteps=40, script=None, policy=None):
     """Code -> spec: a seeded random walk over what the real Leader Manager + TrafficTimer can do, recorded step by step
     (action + projection) for validation against DilationTimer.tla, and judged by the observer like every other run."""
     run = TimerRun(interval, throttle=[(), ("L",), ("F",), ("L", "F")][tid % 4])
@@ -212,7 +239,11 @@ def real_walk(tid, interval, rng, horizon, max_conns, nsteps=40, script=None):
         acts = real_enabled(run, interval, horizon, max_conns, stopped)
         if not acts:
             break
-        if script is not None:
+        if policy is not None:
+            la = policy(run, acts)
+            if la is None:
+                break
+        elif script is not None:
             la = script[step]
             if la not in acts:
                 break           # the real objects do not offer the scripted step any more (e.g. the connection was dropped)
@@ -393,7 +424,25 @@ def run(prop, tier):
                 records.append(rec)
                 meta[tid] = {"schedule": run_.schedule, "I": consts["I"], "throttle": list(run_.throttle)}
                 traces[tid] = lines
-            res, r = common.trace_validate(wd, "DilationTimer", consts, traces, T_PROJ, "MC_C16_trace_" + name)
+            # long histories: many generations on one Manager (whatever a Manager keeps from one connection to the next - ping
+            # bookkeeping, timers, the monitor's state - has had time to pile up); the model's bounds are widened for these traces
+            if name == "I2":
+                gconsts = dict(I=2, Horizon=70, MaxConns=9)
+                gtraces = {}
+                for silent_first in (0, 1, 2, 3):
+                    tid += 1
+                    run_, rec, lines = real_walk(tid, 2, rng, gconsts["Horizon"], gconsts["MaxConns"], nsteps=400,
+                                                 policy=generations_policy(2, silent_first))
+                    rec["origin"], rec["config"] = "generations:%d-silent-first" % silent_first, "I2-long"
+                    records.append(rec)
+                    meta[tid] = {"schedule": run_.schedule, "I": 2, "throttle": list(run_.throttle)}
+                    gtraces[tid] = lines
+                gres, _r = common.trace_validate(wd, "DilationTimer", gconsts, gtraces, T_PROJ, "MC_C16_trace_long")
+                traces.update(gtraces)
+            res, r = common.trace_validate(wd, "DilationTimer", consts, traces if name != "I2" else
+                                           {t: l for t, l in traces.items() if t not in gtraces}, T_PROJ, "MC_C16_trace_" + name)
+            if name == "I2":
+                res.update(gres)
             for t, (reached, total) in sorted(res.items()):
                 tv["walks"] += 1
                 if reached == total:
